@@ -6,6 +6,7 @@ import S2T.Model.Cells
 import S2T.Gen.GlobalWrites
 import S2T.Props.C15_Conc
 import S2T.Props.C15_Settings
+import S2T.Props.C15_Suspend
 /-!
 # C15 — Isolation: results independent of history and of concurrent work
 
